@@ -134,6 +134,10 @@ func ltIntAndFloat(n int64, f float64) bool {
 	if float64(nf) == f {
 		return n < nf
 	}
+	// float64(n) may round up to 2^63, so f >= 2^63 must not go through it.
+	if f >= 1<<63 {
+		return true
+	}
 	return float64(n) < f
 }
 
@@ -157,6 +161,10 @@ func leFloatAndInt(f float64, n int64) bool {
 	nf := int64(f)
 	if float64(nf) == f {
 		return nf <= n
+	}
+	// float64(n) may round up to 2^63, so f >= 2^63 must not go through it.
+	if f >= 1<<63 {
+		return false
 	}
 	return f <= float64(n)
 }
